@@ -329,7 +329,7 @@ class Engine:
     def verify(self, contract):
         """Generate the obligations of one function under contract. Returns list of Obligation."""
         self.contract = contract
-        self.fn = self.src.functions.get(contract.qualname)
+        self.fn = self.src.functions.get(contract.extra.get("target", contract.qualname))     # "target": a second contract of the same function
         if self.fn is None:
             raise KeyError("target %s not found in %s" % (contract.qualname, self.file))
         if contract.extra.get("desugar_comprehensions"):
@@ -644,6 +644,12 @@ class Engine:
             return VOpt(sort, sort.dt.some(to_z3(v, sort.inner)))
         if isinstance(sort, _Real) and is_z3int(v):
             return to_z3(v, sort)
+        if isinstance(v, VOpt) and isinstance(sort, (_Int, _Real)):
+            return self.unopt(st, v, "TypeError-None-argument")
+        if isinstance(v, tuple) and v == ("emptyset",) and isinstance(sort, SET):
+            return VSet(sort.key, z3.K(sort.key.z3sort(), z3.BoolVal(False)))
+        if isinstance(v, tuple) and v == ("emptylist",) and isinstance(sort, LIST):
+            return VList(sort.elem, z3.K(z3.IntSort(), to_z3(sort.elem.fresh("dflt"), sort.elem)), z3.IntVal(0), sort.is_str)
         if isinstance(v, VConstDict) and isinstance(sort, DICT):
             d = VDict(sort.key, sort.val, z3.K(sort.key.z3sort(), z3.BoolVal(False)), z3.K(sort.key.z3sort(), to_z3(sort.val.fresh("dflt"), sort.val)))
             for k, x in v.items:
@@ -691,8 +697,19 @@ class Engine:
 
     # ---- loops
     def loop_ordinal(self, node):
-        loops = [n for n in ast.walk(self.fn) if isinstance(n, (ast.For, ast.While))]
-        loops.sort(key=lambda n: (n.lineno, n.col_offset))
+        loops = []
+
+        def visit(stmts):       # source (pre-)order: a loop before the loops nested in it, independent of line numbers (synthetic in the Cython front end)
+            for s_ in stmts:
+                if isinstance(s_, (ast.For, ast.While)):
+                    loops.append(s_)
+                for f in ("body", "orelse", "finalbody"):
+                    sub = getattr(s_, f, None)
+                    if isinstance(sub, list) and not isinstance(s_, (ast.FunctionDef, ast.ClassDef)):
+                        visit(sub)
+                for h in getattr(s_, "handlers", []) or []:
+                    visit(h.body)
+        visit(self.fn.body)
         for i, l in enumerate(loops):
             if l is node:
                 return i
@@ -1005,6 +1022,13 @@ class Engine:
             else:
                 yield s1, flow
 
+    def unopt(self, st, v, what):
+        """an Optional value used where a plain one is needed: None raises (TypeError / KeyError with a None key)"""
+        if isinstance(v, VOpt):
+            self.oblige(st, "noexc", z3.Not(v.is_none()), what)
+            return from_z3(v.val(), v.sort.inner)
+        return v
+
     def need_value(self, st, v):
         """a MAYBE(container) used as a container: TypeError if it is None"""
         if getattr(v, "none", None) is not None:
@@ -1308,7 +1332,7 @@ class Engine:
             if isinstance(op, ast.BitAnd):
                 return VSet(a.key, z3.Lambda([k], z3.And(a.dom[k], b.dom[k])))
         if isinstance(a, VOpt) or isinstance(b, VOpt):
-            raise Unsupported("arithmetic on Optional")
+            a, b = self.unopt(st, a, "TypeError-None-arithmetic"), self.unopt(st, b, "TypeError-None-arithmetic")
         if not (is_numlike(a) and is_numlike(b)):
             raise Unsupported("binop %s on %r, %r" % (type(op).__name__, a, b))
         az, bz = to_z3(a), to_z3(b)
@@ -1555,6 +1579,8 @@ class Engine:
                 return base.items[0] if base.items else NONE
             raise Unsupported("symbolic tuple index")
         if isinstance(base, VDict):
+            if isinstance(key, VOpt) and not isinstance(base.key, OPT):
+                key = self.unopt(st, key, "KeyError-None-key")
             kz = to_z3(key, base.key)
             self.oblige(st, "noexc", base.dom[kz], "KeyError")
             return from_z3(base.map[kz], base.val)
